@@ -5,6 +5,8 @@ package main
 
 import (
 	"fmt"
+	"go/ast"
+	"go/types"
 	"sort"
 	"strings"
 )
@@ -28,6 +30,7 @@ type templateVerdict struct {
 	em        *emission
 	Got, Want []outcome
 	Skipped   string
+	Globals   []string // package-level variables referenced from emitted rule functions
 }
 
 // project recomputes Missing/Extra under a projection of outcomes (each
@@ -91,6 +94,19 @@ func checkModel(r *Repo, ti *tmplInfo, rg *region, m *model, ri int, name string
 	if ri+1 >= len(gf.rules) || gf.rules[ri+1] == nil {
 		tv.Und = append(tv.Und, fmt.Sprintf("rule function #%d not found in the emitted table (%d entries)", ri+1, len(gf.rules)))
 		return tv
+	}
+	for _, rf := range gf.rules {
+		if rf == nil {
+			continue
+		}
+		ast.Inspect(rf.Body, func(n ast.Node) bool {
+			if id, ok := n.(*ast.Ident); ok {
+				if v, ok := gf.in.Info.Uses[id].(*types.Var); ok && v.Parent() == gf.in.Pkg.Scope() {
+					tv.Globals = append(tv.Globals, id.Name)
+				}
+			}
+			return true
+		})
 	}
 	u := m.universe()
 	fl := &flow{gf: gf, u: u, info: gf.in.Info}
